@@ -323,3 +323,93 @@ Section Locks.
 End Locks.
 Definition f_initial (t : fth) : bool := match f_pc t with WLock | KLock => true | _ => false end.
 Definition f_close_pending (t : fth) : bool := match f_pc t with KLock | KClose | KUnlock => true | _ => false end.
+
+(* ------------------------------------------------------------------------------------------------ *)
+(* D2. StreamProcessor: an operation queued behind the read (write) lock while Close runs            *)
+(* ------------------------------------------------------------------------------------------------ *)
+(* stream_processor.go acquireReadLock / acquireWriteLock.  `lockfirst = true` (the repository): take the lock, THEN test
+   Dispose.IsClosed() (which itself waits for Close's currentLock).  `lockfirst = false`: test first, then take the lock
+   without re-testing.  An operation = acquire; `reads` calls on the underlying reader; release. *)
+Record qsh := {
+  q_closed : bool;     (* Dispose.closed *)
+  q_dlock : bool;      (* Dispose.currentLock: held while Close runs its handlers *)
+  q_rlock : bool;      (* readLock / writeLock *)
+  q_late : nat }.      (* ghost: calls made on the underlying reader/writer after Close had returned, by an operation that
+                          entered its I/O phase after Close had returned *)
+Inductive qpc :=
+| QStart | QWait | QHave | QIO (late : bool) (left : nat) | QRet (ok : bool)
+| QClose | QCleaning | QClosed.
+
+Definition qstep (lockfirst : bool) (reads : nat) (t : qpc) (s : qsh) : qpc * qsh :=
+  let upd c d r l := {| q_closed := c; q_dlock := d; q_rlock := r; q_late := l |} in
+  match t with
+  | QStart => if lockfirst
+              then (if q_rlock s then (t, s) else (QHave, upd (q_closed s) (q_dlock s) true (q_late s)))
+              else (if q_dlock s then (t, s) else if q_closed s then (QRet false, s) else (QWait, s))
+  | QHave => if q_dlock s then (t, s)
+             else if q_closed s then (QRet false, upd (q_closed s) (q_dlock s) false (q_late s))
+             else (QIO false reads, s)
+  | QWait => if q_rlock s then (t, s)
+             else (QIO (q_closed s && negb (q_dlock s)) reads, upd (q_closed s) (q_dlock s) true (q_late s))
+  | QIO l (S k) => (QIO l k, upd (q_closed s) (q_dlock s) (q_rlock s) (if l then S (q_late s) else q_late s))
+  | QIO l 0 => (QRet true, upd (q_closed s) (q_dlock s) false (q_late s))
+  | QClose => if q_dlock s then (t, s) else if q_closed s then (QClosed, s) else (QCleaning, upd true true (q_rlock s) (q_late s))
+  | QCleaning => (QClosed, upd (q_closed s) false (q_rlock s) (q_late s))
+  | QRet _ | QClosed => (t, s)
+  end.
+Definition qinit : qsh := {| q_closed := false; q_dlock := false; q_rlock := false; q_late := 0 |}.
+Definition q_not_in_io (t : qpc) : bool := match t with QStart | QHave | QWait => true | _ => false end.
+
+(* ------------------------------------------------------------------------------------------------ *)
+(* G. Composite clean-up bodies: sub-component shutdown calls that may fail                           *)
+(* ------------------------------------------------------------------------------------------------ *)
+(* A clean handler of a composite component (mapping handler: final stats report, tunnel manager Close, adapter Close;
+   StreamProcessor.onClose: buffer manager, writer, reader; SessionManager.onClose; Bridge.Close; Tunnel.Close) calls the
+   shutdown of each sub-component in turn.  `early = false`: errors are collected / returned at the end (the repository);
+   `early = true`: the body returns at the first failing sub-component. *)
+Record sub := { s_id : nat; s_fail : bool }.
+Fixpoint run_body (early : bool) (subs : list sub) : list nat * list nat :=
+  match subs with
+  | [] => ([], [])
+  | s :: r => if early && s_fail s then ([s_id s], [s_id s])
+              else let '(ran, errs) := run_body early r in (s_id s :: ran, if s_fail s then s_id s :: errs else errs)
+  end.
+(* the sub-component bodies run by a Dispose whose handler `h` has the composite body `bodies h`, given its run log *)
+Definition sub_runlog (early : bool) (bodies : nat -> list sub) (runlog : list nat) : list nat :=
+  flat_map (fun h => fst (run_body early (bodies h))) runlog.
+
+(* ------------------------------------------------------------------------------------------------ *)
+(* H. Bridge: connections attached after a Close                                                     *)
+(* ------------------------------------------------------------------------------------------------ *)
+(* bridge.go Close: under the connection locks close and nil whatever connection fields are set NOW (one slot per side;
+   the model follows one side), then ManagerBase.Close (latch).  bridge_connection.go SetTargetConnection /
+   SetSourceConnection: store the connection in the slot (no closed test).  `fastpath = true`: Close returns at once when
+   the bridge is already closed. *)
+Record bsh := {
+  b_latch : bool;              (* Dispose.closed *)
+  b_slot : option nat;         (* the connection currently attached on this side *)
+  b_closedlog : list nat;      (* connections closed by a Close sweep, in order *)
+  b_attached : list nat;       (* ghost: every connection ever attached *)
+  b_dropped : list nat }.      (* ghost: connections displaced by a later attach before any sweep saw them *)
+Inductive bpc := BClose | BSweep | BLatch | BDone | BAttach (c : nat) | BAttached.
+
+Definition bstep (fastpath : bool) (t : bpc) (s : bsh) : bpc * bsh :=
+  match t with
+  | BClose => if fastpath && b_latch s then (BDone, s) else (BSweep, s)
+  | BSweep => (BLatch, match b_slot s with
+                       | Some c => {| b_latch := b_latch s; b_slot := None; b_closedlog := b_closedlog s ++ [c];
+                                      b_attached := b_attached s; b_dropped := b_dropped s |}
+                       | None => s
+                       end)
+  | BLatch => (BDone, {| b_latch := true; b_slot := b_slot s; b_closedlog := b_closedlog s; b_attached := b_attached s;
+                         b_dropped := b_dropped s |})
+  | BAttach c => (BAttached, {| b_latch := b_latch s; b_slot := Some c; b_closedlog := b_closedlog s;
+                                b_attached := b_attached s ++ [c];
+                                b_dropped := match b_slot s with Some o => b_dropped s ++ [o] | None => b_dropped s end |})
+  | BDone | BAttached => (t, s)
+  end.
+Definition binit : bsh := {| b_latch := false; b_slot := None; b_closedlog := []; b_attached := []; b_dropped := [] |}.
+Definition b_pending (t : bpc) : list nat := match t with BAttach c => [c] | _ => [] end.
+Definition b_initial (t : bpc) : bool := match t with BClose | BAttach _ => true | _ => false end.
+Definition cnt (c : nat) (l : list nat) : nat := count_occ Nat.eq_dec l c.
+Definition slot_list (o : option nat) : list nat := match o with Some c => [c] | None => [] end.
